@@ -25,7 +25,7 @@ import (
 	"example.com/proto/mid"
 )
 
-var version = "unset"
+var version = "unset-version-string"
 
 var commit = "no-commit-recorded"
 
